@@ -314,7 +314,9 @@ impl Evidence {
         }
     }
 
-    pub fn write(&self, opts: &Opts, violations: usize) {
+    /// `violations` = violations not listed as known findings (what makes the check exit 1);
+    /// `raw` = every violating case before matching against known_findings.json
+    pub fn write(&self, opts: &Opts, violations: usize, raw: usize) {
         if opts.dry {
             return;
         }
@@ -337,6 +339,7 @@ impl Evidence {
         for (k, v) in &self.extra {
             coverage[k] = v.clone();
         }
+        coverage["known_finding_occurrences"] = json!(raw.saturating_sub(violations));
         let ev = json!({
             "property_id": self.property,
             "tier": opts.tier.name(),
